@@ -231,6 +231,29 @@ Definition c16_pred (args : list val) : bool :=
   | _ => false
   end.
 
+(** known finding F31: host_port_subcomponent strips trailing dots from the raw host even when
+    it is an IPv6 literal whose ZONE ID ends in '.' ([fe80::1%eth.] -> [fe80::1%eth]).
+    Accepts exactly: an IPv6 raw host with a zone that ends in '.', every other demand of
+    c16_pred met, and host_port_subcomponent starting with the bracketed host minus its
+    trailing dots. *)
+Definition kf_f31 (args : list val) : bool :=
+  match args with
+  | [WList _ as o] =>
+      match nthv i_raw_host o, nthv i_host_sub o, nthv i_host_port_sub o, nthv i_str o with
+      | WStr h, WStr hs, WStr hps, WStr s =>
+          let '(addr, has_zone, zone) := partition 37 h in
+          mem 58 h && has_zone
+          && match last_opt h with Some 46 => true | _ => false end
+          && is_lower_ascii_host addr
+          && str_eqb hs ([91] ++ h ++ [93])
+          && existsb (fun i => startswith ([91] ++ h ++ [93]) (skipn i s)) (seq 0 (length s))
+          && startswith ([91] ++ rstrip [46] h ++ [93]) hps
+          && negb (startswith ([91] ++ h ++ [93]) hps)
+      | _, _, _, _ => false
+      end
+  | _ => false
+  end.
+
 (** reg-name grammar of RFC 3986 on a lower-cased ASCII host argument *)
 Fixpoint spec_regname_ok (s : str) : bool :=
   match s with
@@ -396,7 +419,8 @@ Definition bad_bracket_host (ip_parse : str -> option (N * str)) (hp : str) : bo
         end).
 Definition f17_input (ip_parse : str -> option (N * str)) (prog : val) : bool :=
   existsb (fun s => let '(_, nl, _, _, _) := rfc_split (spec_clean s) in
-                    bad_bracket_host ip_parse (hostport_of nl) || bad_bracket_host ip_parse (hostport_of s))
+                    bad_bracket_host ip_parse (hostport_of nl)
+                    || (negb (mem 47 s) && bad_bracket_host ip_parse (hostport_of s)))     (* a bare host text (no '/') given to with_host/build *)
           (val_strings prog).
 
 (** F30: some input text contains a lone surrogate *)
@@ -409,10 +433,12 @@ Definition f30_input (prog : val) : bool :=
 Definition f17_observed (args : list val) : bool :=
   match args with
   | (WList _ as o) :: _ =>
-      (match nthv i_raw_host o with
-       | WStr h => mem 58 h
-       | WErr ValueError => true
-       | _ => false
+      (match nthv i_raw_host o, nthv i_netloc o with
+       | WStr h, WStr nl =>
+           (* a host with ':' that is NOT written in brackets in the stored authority *)
+           mem 58 h && let '(_, _, hp) := rpartition 64 nl in negb (startswith ([91] ++ h ++ [93]) hp)
+       | WErr ValueError, _ => true
+       | _, _ => false
        end)
       || match nthv i_netloc o with
          | WStr nl => let '(_, _, hp) := rpartition 64 nl in xorb (mem 91 hp) (mem 93 hp)
